@@ -533,7 +533,8 @@ def evaluate_programs(ctx, binpath, cases, stream, coq_spec_sample=0):
         a = c_args(c, fuel_for(c))
         exprs.append("(run_dnf_neg %s, run_tt_neg %s, run_minmax_neg %s, run_bool_neg %s, seed_order %s)" % (
             a, a, a, a, "[%s]" % "; ".join("(%s, %s)" % (c_fact(s), c_q(s[3], s[4])) for s in c["seeds"])))
-    model = ctx.run_model(SUB, REQ, exprs, preamble=PRE)
+    # small shards and a generous timeout: a 12-input case costs several seconds of vm_compute (truth-table instance)
+    model = ctx.run_model(SUB, REQ, exprs, preamble=PRE, chunk=max(1, min(40, (len(exprs) + vf.NPROC - 1) // vf.NPROC)), timeout=3000)
     st = dict(cases=len(cases), seeds=0, zero_probability_cases=0, derived_facts=0, recursive_cycle_facts=0,
               multi_clause_tags=0, correlated_tags=0, max_clauses=0, impl_model_mismatches=0, spec_violations=0,
               in_known_zero=0, known_zero_reproduced=0, facts_checked=0, negation_cases=0, facts_from_negation=0)
@@ -706,6 +707,8 @@ def evaluate_programs(ctx, binpath, cases, stream, coq_spec_sample=0):
                 ctx.broken("correspondence", stream + ":coq-spec", "the check's world-enumeration oracle and KV.Prov.Spec disagree", cases[j])
         ctx.stream(stream + ":coq-spec", cases=len(idx), disagreements=nbad)
     ctx.stream(stream, **st)
+    ctx.log("stream %s: %d programs x 4 modes, %d impl/model mismatches, %d spec violations, %d in known class" % (
+        stream, len(cases), st["impl_model_mismatches"], st["spec_violations"], st["in_known_zero"]))
 
 
 def tt_of_formula(f, nv):
@@ -777,6 +780,7 @@ def evaluate_dnfops(ctx, binpath, cases, stream):
         if len(c["a"]) >= 2 and len(c["b"]) >= 2:
             ctx.nontrivial(("dnfops", c["table"], c["a"], c["b"]))
     ctx.stream(stream, cases=len(cases), impl_model_mismatches=mism, spec_violations=viol)
+    ctx.log("stream %s: %d operand pairs, %d impl/model mismatches, %d spec violations" % (stream, len(cases), mism, viol))
 
 
 def load_corpus():
